@@ -46,6 +46,8 @@ class Entry:
         self.qualname = kw.pop('qualname', None) or self.name
         self.exec_const = kw.pop('exec_const', None)   # D10: ensures text for `exec const`
         self.const_proof = kw.pop('const_proof', None) # ghost block placed before the initialiser
+        self.d1 = kw.pop('d1', False)   # generic D1: split or-patterns that carry a guard
+        self.d8 = kw.pop('d8', False)   # generic D8: closure parameter `_` -> `_x`
         self.all_loops = kw.pop('all_loops', None)     # invariant text applied to every loop without its own
         self.depth = kw.pop('depth', 0)                # brace depth at which the item sits (nested inline modules)
         if kw:
@@ -458,6 +460,14 @@ class Unit:
             if not KEEP_ATTR.match(a):
                 self.dropped.add(re.sub(r'\(.*', '(..)]', a) if '(' in a else a)
         text = self._apply_rewrites(e, orig_text)
+        if e.d1:
+            text, n1 = split_or_guards(text)
+            if n1:
+                self.desugar_log.append(('D1', '%s: %d or-pattern arm(s) with a guard split into one arm per alternative' % (e.qualname, n1)))
+        if e.d8:
+            text, n8 = re.subn(r'\|\s*_\s*\|', '|_x|', text)
+            if n8:
+                self.desugar_log.append(('D8', '%s: %d closure parameter(s) `_` named' % (e.qualname, n8)))
         sig, body = split_signature(text)
         sig = _widen_vis(sig)
         if e.ret:
@@ -702,3 +712,113 @@ def _string_literals(text):
         else:
             i += 1
     return out
+
+
+def split_or_guards(text):
+    """D1, applied mechanically: in every `match`, an arm `P1 | P2 | .. if G => E` becomes
+    `P1 if G => E, P2 if G => E, ..` (definition of or-patterns with a guard)."""
+    rf = RustFile('<d1>', text)
+    n = len(text)
+    count = 0
+    out = []
+    i = 0
+
+    def depth0_find(start, end, targets):
+        d = 0
+        j = start
+        while j < end:
+            if rf.code[j]:
+                c = text[j]
+                if d == 0:
+                    for t in targets:
+                        if text.startswith(t, j):
+                            return j, t
+                if c in '([{':
+                    d += 1
+                elif c in ')]}':
+                    d -= 1
+                    if d < 0:
+                        return -1, None
+            j += 1
+        return -1, None
+
+    def process(lo, hi):
+        nonlocal count
+        res = []
+        pos = lo
+        for m in re.compile(r'\bmatch\b').finditer(text, lo, hi):
+            if m.start() < pos or not rf.code[m.start()]:
+                continue
+            # opening brace of the match body
+            b, _ = depth0_find(m.end(), hi, ['{'])
+            if b < 0:
+                continue
+            e = rf.match_brace(b)
+            res.append(text[pos:b + 1])
+            # arms
+            k = b + 1
+            while True:
+                # skip whitespace/comments
+                while k < e - 1 and (not rf.code[k] or text[k].isspace()):
+                    k += 1
+                if k >= e - 1:
+                    break
+                arrow, _ = depth0_find(k, e - 1, ['=>'])
+                if arrow < 0:
+                    break
+                head = text[k:arrow]
+                body_start = arrow + 2
+                while body_start < e - 1 and text[body_start].isspace():
+                    body_start += 1
+                if text[body_start] == '{' and rf.code[body_start]:
+                    body_end = rf.match_brace(body_start)
+                    body = '{' + process(body_start + 1, body_end - 1) + '}'
+                    nxt = body_end
+                    while nxt < e - 1 and text[nxt].isspace():
+                        nxt += 1
+                    if nxt < e - 1 and text[nxt] == ',':
+                        nxt += 1
+                else:
+                    comma, _ = depth0_find(body_start, e - 1, [','])
+                    body_end = comma if comma >= 0 else e - 1
+                    body = process(body_start, body_end)
+                    nxt = body_end + 1 if comma >= 0 else body_end
+                # split head into pattern alternatives and guard
+                hrf_start = k
+                g, _ = depth0_find(hrf_start, arrow, [' if ', '\nif ', '\tif '])
+                guard = None
+                pat = head
+                if g >= 0:
+                    pat = text[k:g]
+                    guard = text[g:arrow].strip()[2:].strip()
+                alts = []
+                d = 0
+                cur = ''
+                for idx in range(k, k + len(pat)):
+                    ch = text[idx]
+                    if rf.code[idx]:
+                        if ch in '([{':
+                            d += 1
+                        elif ch in ')]}':
+                            d -= 1
+                        elif ch == '|' and d == 0:
+                            alts.append(cur)
+                            cur = ''
+                            continue
+                    cur += ch
+                alts.append(cur)
+                alts = [a.strip() for a in alts if a.strip()]
+                if guard is not None and len(alts) > 1:
+                    count += 1
+                    for a in alts:
+                        res.append('\n        %s if %s => %s,' % (a, guard, body))
+                else:
+                    res.append('\n        ' + head.strip() + ' => ' + body + ',')
+                k = nxt
+            res.append('\n    }')
+            pos = e
+        res.append(text[pos:hi])
+        return ''.join(res)
+
+    new = process(0, n)
+    return (new, count) if count else (text, 0)
